@@ -621,6 +621,25 @@ def set_item(ex, state, obj, key, v):
     raise Unsupported("subscript store on %r" % (obj,))
 
 
+def set_item_guarded(ex, state, obj, key, v, g):
+    """obj[key] = v  under guard g (other alternatives of a union-typed container / key are untouched)"""
+    if isinstance(obj, VRef) and state.heap[obj.oid].kind == "dict":
+        o = state.heap[obj.oid]
+        from . import models
+        before = (dict(o.sym) if o.sym is not None else None, dict(o.d) if o.d is not None else None)
+        models.dict_setitem(ex, state, obj, key, v)
+        if o.sym is not None and before[0] is not None:
+            o.sym["has"] = z3.If(g, o.sym["has"], before[0]["has"])
+            o.sym["val"] = z3.If(g, o.sym["val"], before[0]["val"])
+            return
+        if o.sym is not None and before[0] is None:
+            # an empty literal dict that just became a symbolic table
+            o.sym["has"] = z3.If(g, o.sym["has"], z3.K(o.sym["has"].sort().domain(), z3.BoolVal(False)))
+            return
+        raise Unsupported("guarded store into a concrete-key dict")
+    raise Unsupported("guarded subscript store on %r" % (obj,))
+
+
 def del_item(ex, state, obj, key):
     if isinstance(obj, VRef):
         o = state.heap[obj.oid]
